@@ -5,7 +5,14 @@ CFG = {
     "required_theorems": ["RpmVerif.C12.extract_hostile", "RpmVerif.C12.extract_hostile_wf", "RpmVerif.C12.extract_benign",
                           "RpmVerif.C12.extract_faithful", "RpmVerif.C12.extract_total", "RpmVerif.C12.extract_log_sound",
                           "RpmVerif.C12.regress_dotdot", "RpmVerif.C12.regress_symlink", "RpmVerif.C12.regress_symlink_chmod",
-                          "RpmVerif.C12.regress_symlink_same", "RpmVerif.C12.regress_special_type"],
+                          "RpmVerif.C12.regress_symlink_same", "RpmVerif.C12.regress_special_type",
+                          # the package view `PkgFiles.extractInput` is the composition of the proved read-side models
+                          "RpmVerif.C12.input_files_failed", "RpmVerif.C12.input_of_files", "RpmVerif.C12.input_items_are_iteration",
+                          "RpmVerif.C12.input_index_in_range", "RpmVerif.C12.input_item_designated", "RpmVerif.C12.input_digests_standard",
+                          "RpmVerif.C12.compressor_tables_agree", "RpmVerif.C12.default_compressor_is_identity", "RpmVerif.C12.compressor_names_ascii",
+                          "RpmVerif.C12.payload_compressor_bridge", "RpmVerif.C12.extract_package_hostile",
+                          "RpmVerif.C12.extract_package_total", "RpmVerif.C12.digest_table_decides",
+                          "RpmVerif.C12.digest_algo_fallbacks"],
     "trivial_branches": ["parse-err"],
     "rule": "every case = one package extracted by the real Package::extract inside a chroot jail with decoys outside /target "
             "(snapshot of the whole jail before/after). Hand-encoded packages come in two archive forms, since files() looks the header file up per "
@@ -13,8 +20,10 @@ CFG = {
             "newc entries named after the header path; every family is run in both. Cases: the corpus witnesses, ~75 hand-encoded hostile packages covering every family of the "
             "quantifier text ('..' in directory and base names, absolute/empty/relative names, duplicate paths in all type combinations, a link followed "
             "by a file/dir/link at or below it, link loops/chains/dangling links, FIFO/char/block/socket modes, bad dir indexes, missing tags, truncated "
-            "payloads, unknown compressor), destination variants (exists, no parent, nested, is a link), builder-made packages (all 12 permission bits on "
-            "files and directories, setgid inheritance, files under '/', nested and explicit directories, links, gzip and zstd payloads, the empty package, "
+            "payloads, unknown compressor), file digests under every RPMTAG_FILEDIGESTALGO (the five supported algorithms with the right and the neighbouring "
+            "wrong hex lengths - SHA-224: 56 read, 60 refused -, numbers that are no algorithm such as 2 = SHA-1, SHA-3 numbers, a tag of the wrong type, "
+            "lengths counted in bytes), compressor names next to the accepted ones, the cpio name-size limit (4096 read, 4097 refused), destination variants (exists, no parent, nested, is a link), builder-made packages (all 12 permission bits on "
+            "files and directories, setgid inheritance, files under '/', nested and explicit directories, links, gzip / zstd / xz / bzip2 payloads, the empty package, "
             "hostile destinations the builder accepts), then seeded random builder-made benign packages and seeded random hand-encoded hostile packages. "
             "Non-trivial = the package parses; distinct = distinct request lines.",
     "exhaustive": False,
@@ -25,7 +34,9 @@ CFG = {
                      "validated by the jail snapshots, not proved)",
                      "std: fs::create_dir_all (recursive formulation), Path::join / strip_prefix / components (modelled; validated by the correspondence)",
                      "the extraction runs as root with umask 022 (permission bits never make a call fail); names < 256 bytes, paths < 4096 bytes",
-                     "Model/PkgFiles.lean (get_file_entries / get_file_paths / cpio reader) decodes the package for the driver; exercised on every case"],
+                     "Model/PkgFiles.lean decodes the package for the driver: no code of its own but the composition of Acc.getFileEntries (C04/C05/C06), "
+                     "Acc.getPayloadCompressorVariant and Cpio.iterate (C07) over the tables scraped from the source (file digest lengths, cpio constants, "
+                     "compressor names, default / identity compressor variant) - stated by the input_* theorems; exercised on every case"],
     "assumptions": COMMON_ASSUME + ["kernel path resolution is modelled, not verified (DESIGN §6 C12: partial by nature)"],
     "level_text": "Theorems for all package views, destinations and file systems of any size, about the code after the fix 44c69bc: "
                   "(extract_hostile) for EVERY package view - '..' components, absolute/empty names, duplicates, links followed by entries at or below "
@@ -33,9 +44,15 @@ CFG = {
                   "or removes nothing outside the destination, every logged path being below it (extract_hostile_wf: the same for any tree-shaped file system "
                   "with no assumption on the destination); (extract_benign) a benign (built) package extracted into a vacant destination ends ok, is contained "
                   "and leaves every directory / file / link entry at destination+path with exactly its permission bits, content and link target; "
-                  "(extract_total) no run panics; (extract_log_sound) the model's log accounts for every change. The former counterexamples are regression "
+                  "(extract_total) no run panics; (extract_log_sound) the model's log accounts for every change. The views are tied to packages: "
+                  "(input_of_files, input_files_failed, input_items_are_iteration, input_index_in_range) what extract reads from a package is get_file_entries, "
+                  "get_payload_compressor and the cpio iteration of the C05 / C07 models composed as Package::extract composes them, the items being exactly the Ok prefix "
+                  "of the iteration under the metadata of the header file each entry designates (input_item_designated: C07 pairing_by_name "
+                  "carried over); (input_digests_standard, digest_table_decides, digest_algo_fallbacks) files are handed to extract only if every non-empty file digest has "
+                  "a hex length the source's own table pairs with the algorithm (SHA-224: 56; that these are the real digest sizes is C05 file_digest_lengths_standard); (payload_compressor_bridge) the compressor "
+                  "variant is the one whose name the C05 accessor answers; (extract_package_hostile, extract_package_total) the hostile clause and totality for every package. The former counterexamples are regression "
                   "theorems (regress_*) and corpus cases replayed on the real code in a chroot jail. The FS model is tied to the code by the differential run: "
                   "status, the set of paths changed outside the destination and the full listing of the destination tree must be textually equal.",
-    "level_note": "Trusted: Lean kernel; the modelled POSIX / std semantics (validated by the jail snapshots on every case); the package decoder Model/PkgFiles.lean. "
+    "level_note": "Trusted: Lean kernel; the modelled POSIX / std semantics (validated by the jail snapshots on every case); the package decoder is the composition of the C05 / C07 models (Model/PkgFiles.lean, input_* theorems) over generated tables. "
                   "A regression of the fix is reported as fails:dotdot-escape / symlink-follow-escape / special-type-panic / unfaithful with a replay.",
 }
